@@ -184,7 +184,9 @@ def pumps(ctx: Ctx, sizes, top_limit: float, max_exp: float) -> None:
                 ctx.count(["pump", unit, n, o["width"]], nontrivial=True)
                 case = {"family": [pre, unit, suf], "n": n, "opts": o}
                 if err == "timeout":
-                    ctx.fail(f"GROWTH: pumped input of size {len(text)} did not finish within {top_limit}s", case, None)
+                    linkish = re.search(r"\]\(|\]\[|\[\^|!\[", unit) is not None and len(text) > 16384
+                    ctx.fail(f"GROWTH: pumped input of size {len(text)} did not finish within {top_limit}s", case, None,
+                             known="C12-marko-quadratic-inline-links" if linkish else None)
                     break
                 if err is not None:
                     ctx.fail("NO_RAISE: the formatter raised on a pumped input", case, repr(err)[:300],
